@@ -464,6 +464,26 @@ func (u *User) fire(ev *UserEvent) {
 		if webhookDown(u.h.Update(u.ctx, ro)) {
 			return
 		}
+	case "invalid-spec-edit":
+		// an edit that admission must refuse at any time, also while the Rollout is being deleted: no steps at all,
+		// or no strategy at all.  If it is admitted the controllers get to see it.
+		ro := u.getRollout()
+		if ro == nil {
+			return
+		}
+		switch ev.Arg % 3 {
+		case 0:
+			if ro.Spec.Strategy.Canary != nil {
+				ro.Spec.Strategy.Canary.Steps = nil
+			} else if ro.Spec.Strategy.BlueGreen != nil {
+				ro.Spec.Strategy.BlueGreen.Steps = nil
+			}
+		case 1:
+			ro.Spec.Strategy.Canary, ro.Spec.Strategy.BlueGreen = nil, nil
+		case 2:
+			ro.Spec.WorkloadRef.Name = ""
+		}
+		_ = u.h.Update(u.ctx, ro)
 	case "delete-rollout", "delete-rollout-late":
 		ro := u.getRollout()
 		if ro == nil {
